@@ -6,6 +6,7 @@ import (
 	"bytes"
 	"encoding/binary"
 	"fmt"
+	"hash/crc32"
 	"runtime"
 	"runtime/debug"
 	"runtime/metrics"
@@ -34,6 +35,53 @@ type W struct {
 	Tail    string `json:"tail,omitempty"`
 	TailLen int    `json:"tail_len,omitempty"`
 	Sub     []int  `json:"substitute,omitempty"`
+	// After: number of minimal valid frames (8-byte payload) that precede everything else, so
+	// that a stateful reader (full: read seqno = After) has consumed them when the crafted bytes
+	// arrive.
+	After int `json:"after_valid_frames,omitempty"`
+	// Short: full codec only. A crafted frame of total length N (4..15) placed after the valid
+	// frames: length word N, then the bytes of the expected seqno (After+SeqDelta, little endian)
+	// as far as they fit before the CRC position, then counting payload bytes, then at N-4 the
+	// CRC32 of everything before it (CRC "good") or that value xor 1 ("bad"). For N < 12 the
+	// seqno word overlaps the CRC; whether both checks happen to be satisfiable for this After is
+	// decided by the bytes (no free byte is left), the outcome label says so.
+	Short *Short `json:"short_frame,omitempty"`
+}
+
+// Short is the crafted short full-codec frame.
+type Short struct {
+	N        int    `json:"n"`
+	CRC      string `json:"crc"` // good | bad
+	SeqDelta int    `json:"seq_delta,omitempty"`
+}
+
+// craft builds the short frame; sat reports whether bytes 4..8 equal the expected seqno and the
+// CRC is good (i.e. a reader that checks both, in any order, gets past them).
+func craft(sh Short, seq uint32) (frame []byte, sat bool) {
+	n := sh.N
+	frame = make([]byte, n)
+	binary.LittleEndian.PutUint32(frame, uint32(n))
+	if n < 8 {
+		for i := 4; i < n; i++ {
+			frame[i] = byte(seq >> (8 * (i - 4)))
+		}
+		return frame, false
+	}
+	want := seq + uint32(sh.SeqDelta)
+	for i := 4; i < n-4; i++ {
+		if i < 8 {
+			frame[i] = byte(want >> (8 * (i - 4)))
+		} else {
+			frame[i] = byte(i*7 + 1)
+		}
+	}
+	crc := crc32.ChecksumIEEE(frame[:n-4])
+	if sh.CRC == "bad" {
+		crc ^= 1
+	}
+	binary.LittleEndian.PutUint32(frame[n-4:], crc)
+	sat = sh.CRC == "good" && binary.LittleEndian.Uint32(frame[4:8]) == seq
+	return frame, sat
 }
 
 func newCodec(name string) codec.Codec {
@@ -52,6 +100,14 @@ func newCodec(name string) codec.Codec {
 
 func buildStream(w W) []byte {
 	var s []byte
+	eight := kit.Pattern("count", 8)
+	for i := 0; i < w.After; i++ {
+		s = rt.Encode(s, w.Codec, uint32(i), eight, nil)
+	}
+	if w.Short != nil {
+		f, _ := craft(*w.Short, uint32(w.After))
+		s = append(s, f...)
+	}
 	for i, n := range w.Valid {
 		var p []byte
 		if n > 1<<16 {
@@ -59,7 +115,7 @@ func buildStream(w W) []byte {
 		} else {
 			p = kit.Pattern("count", n)
 		}
-		s = rt.Encode(s, w.Codec, uint32(i), p, nil)
+		s = rt.Encode(s, w.Codec, uint32(w.After+i), p, nil)
 	}
 	s = append(s, kit.UnHex(w.Hex)...)
 	if w.TailLen > 0 {
@@ -176,11 +232,40 @@ func evalCase(w W) kit.Result {
 			if fr > 3 {
 				fr = 3
 			}
+			if w.After > 0 || w.Short != nil {
+				return kit.OKo(statefulLabel(w, frames, err))
+			}
 			return kit.OKo(fmt.Sprintf("%s:frames=%d:%s", w.Codec, fr, errKind(err)))
 		}
 		frames++
 	}
 	return kit.Bad(w.Codec+":no-progress", "more frames than stream bytes")
+}
+
+// statefulLabel names what happened to the bytes that follow the After valid frames.
+func statefulLabel(w W, frames int, err error) string {
+	what := "tail"
+	if w.Short != nil {
+		_, sat := craft(*w.Short, uint32(w.After))
+		cls := "n<8"
+		switch {
+		case w.Short.N >= 12:
+			cls = "n=12..15"
+		case w.Short.N >= 8:
+			cls = "n=8..11"
+		}
+		what = fmt.Sprintf("short:%s:crc-%s", cls, w.Short.CRC)
+		if sat {
+			what += ":seq+crc-satisfied"
+		}
+	}
+	switch {
+	case frames < w.After:
+		return fmt.Sprintf("%s:after-k:%s:valid-prefix-rejected:%s", w.Codec, what, errKind(err))
+	case frames == w.After:
+		return fmt.Sprintf("%s:after-k:%s:rejected:%s", w.Codec, what, errKind(err))
+	}
+	return fmt.Sprintf("%s:after-k:%s:returned-as-frame", w.Codec, what)
 }
 
 func errKind(err error) string {
@@ -220,6 +305,8 @@ func main() {
 			"(c) full: length n = 0..64 and {2^24-1,2^24,2^24+1,2^31-1,2^31,2^32-1} x seqno {match, mismatch} x body {absent, 4 bytes, exactly n-4, 64 bytes}, also as the second frame after a valid one; " +
 			"(d) abridged: first byte 0..126 x {64, 600 zero bytes} and first byte 127..255 (quick: 7f,80,ef,ff) x 3-byte word count in {0,1,2,126,127,128,0x3fff,0x3fffff,0x400000,0x400001,0x7fffff,0x800000,0xffffff} x {nothing, 64 zero bytes}; " +
 			"(e) every single-byte substitution (all 255 other values, quick: 16 values) at every position of two valid 3-frame streams (payloads 8,12,8 and 8,4,12); " +
+			"(h) stateful: for every k in 0..320 (thorough 0..1200) k valid 8-byte-payload frames (so the full reader expects seqno k) followed by a crafted full frame of every total length 4..15 carrying the bytes of seqno k where they fit and, at the last 4 bytes, the reference CRC32 of the preceding bytes (for lengths 8..11 seqno and CRC overlap: no byte is free, the frame satisfies both checks only for certain k, e.g. n=11 at k=44; the outcome label says when), the same with the CRC off by one bit and with seqno k+1; " +
+			"and for k in {1,2,3,7,44,127,128,255,256,300} (thorough 1..300, 1000, 4096) every codec's own short/odd frames after k valid frames (full: 12 length prefixes with and without matching seqno; intermediate/padded: lengths 0..15 and out-of-range with exact/too-long/absent bodies; abridged: 7 first bytes, extended lengths around 16 MiB); " +
 			"(f) largest valid frames (payload 16 MiB-12 / 16 MiB) and the first refused length; (g) 4 deterministic pseudo-random streams of every length 0..64. " +
 			"Every stream is decoded frame by frame with a fresh buffer until the first error, in a worker process under ulimit -v 2 GiB. " +
 			"Oracle: no panic, each Read returns a frame or an error, cap(buffer) <= 16 MiB + 64 KiB and bytes allocated during the Read (runtime/metrics /gc/heap/allocs:bytes) <= 16 MiB + 1 MiB. distinct = distinct witnesses.")
@@ -352,6 +439,54 @@ func main() {
 				h := kit.Hex([]byte{byte(a), byte(n), byte(n >> 8), byte(n >> 16)})
 				add(W{Codec: rt.Abridged, Hex: h})
 				add(W{Codec: rt.Abridged, Hex: h, Tail: "zero", TailLen: 64})
+			}
+		}
+		// (h) stateful: k valid frames first (full: the reader's seqno is then k), then crafted bytes
+		maxK := 320
+		if c.Thorough() {
+			maxK = 1200
+		}
+		for k := 0; k <= maxK; k++ {
+			for n := 4; n <= 15; n++ {
+				add(W{Codec: rt.Full, After: k, Short: &Short{N: n, CRC: "good"}})
+				if n >= 8 {
+					add(W{Codec: rt.Full, After: k, Short: &Short{N: n, CRC: "bad"}})
+					add(W{Codec: rt.Full, After: k, Short: &Short{N: n, CRC: "good", SeqDelta: 1}})
+				}
+			}
+		}
+		ks := []int{1, 2, 3, 7, 44, 127, 128, 255, 256, 300}
+		if c.Thorough() {
+			ks = nil
+			for k := 1; k <= 300; k++ {
+				ks = append(ks, k)
+			}
+			ks = append(ks, 1000, 4096)
+		}
+		for _, k := range ks {
+			// full: plain length prefixes with the current seqno and zero bodies
+			for _, n := range []uint32{0, 1, 3, 4, 7, 8, 11, 12, 16, rt.FrameLimit, rt.FrameLimit + 1, 1<<32 - 1} {
+				add(W{Codec: rt.Full, After: k, Hex: le32(n)})
+				add(W{Codec: rt.Full, After: k, Hex: le32(n) + le32(uint32(k)), Tail: "zero", TailLen: 16})
+			}
+			for _, cd := range []string{rt.Intermediate, rt.Padded} {
+				for _, n := range []uint32{0, 1, 2, 3, 4, 5, 7, 8, 9, 15, rt.FrameLimit + 1, 1 << 31, 1<<32 - 1} {
+					add(W{Codec: cd, After: k, Hex: le32(n)})
+					if n < 16 {
+						add(W{Codec: cd, After: k, Hex: le32(n), Tail: "ff", TailLen: int(n)})
+						add(W{Codec: cd, After: k, Hex: le32(n), Tail: "ff", TailLen: int(n) + 3})
+					}
+				}
+				add(W{Codec: cd, After: k, Hex: "0100"})
+			}
+			for _, first := range []int{0x00, 0x01, 0x02, 0x7e, 0x7f, 0x80, 0xff} {
+				add(W{Codec: rt.Abridged, After: k, Hex: fmt.Sprintf("%02x", first)})
+				add(W{Codec: rt.Abridged, After: k, Hex: fmt.Sprintf("%02x", first), Tail: "zero", TailLen: 7})
+				if first >= 0x7f {
+					for _, wd := range []int{0, 1, 0x400000, 0x400001, 0xffffff} {
+						add(W{Codec: rt.Abridged, After: k, Hex: fmt.Sprintf("%02x%02x%02x%02x", first, wd&0xff, wd>>8&0xff, wd>>16&0xff), Tail: "zero", TailLen: 5})
+					}
+				}
 			}
 		}
 		// (f)
